@@ -43,7 +43,7 @@ class C08(GProp):
     files = ['tephra-combinator/src/control.rs', 'tephra-combinator/src/bracket.rs', 'tephra-combinator/src/list.rs', 'tephra/src/context.rs']
     rule = ('seeded random grammars from the C06/C07 family extended with recover / recover_default / delayed variants / stabilize / '
             'bracket* / list* placed only in committed positions (sequences, bracket and list bodies), on valid and invalid random '
-            'texts; every case is executed twice, with Context::empty and with a collecting sink, and the two implementation runs '
+            'texts plus valid bracketed lists with trailing separators whose recovering items contain optional parts (nested sink-less regions); every case is executed twice, with Context::empty and with a collecting sink, and the two implementation runs '
             'are compared: (a) sink-less ok => identical value, end position and remaining stream with a sink and nothing reported; '
             '(b) sink ok with nothing reported => identical sink-less ok; (c) sink-less error => the same error returned or as '
             'first diagnostic (transform tags erased); non-trivial = a pair in which the sink-less run succeeds through a recovering '
@@ -57,6 +57,19 @@ class C08(GProp):
         for i in range(2000 if tier == 'quick' else 25000):
             g = gen_committed(r)
             t = spangen.random_text(r, ['a', 'a', 'b', 'comma', 'semi', 'sp', 'lk', 'rk', 'c'], 12 if tier == 'quick' else 24)
+            if i % 8 == 7:
+                # valid bracketed lists with a trailing separator whose recovering item has an optional part: the list's
+                # speculative last-item attempt (an optional parse) runs the item's own optional parse inside it - two nested
+                # sink-less regions, then a committed recovering combinator fails while the outer one is still open
+                item = ['recoverdef', ['beforeany', 'Comma', 'RK'], r.choice([['both', ['maybe', ['one', 'A']], ['one', 'B']],
+                                                                             ['right', ['maybe', ['one', 'A']], ['one', 'B']],
+                                                                             ['both', ['reqif', 'F', ['one', 'A']], ['one', 'B']]])]
+                g = ['bracketdef', ['LK'], [r.choice(['listdef', 'list']), item, 'Comma', ['RK']], ['RK'], []]
+                segs = [r.choice([['a', 'b'], ['b'], ['a', 'sp', 'b']]) for _ in range(1 + r.below(3))]
+                t = ['lk']
+                for si, sg in enumerate(segs):
+                    t += sg + (['comma', 'sp'] if si < len(segs) - 1 or r.chance(2, 3) else [])
+                t += ['rk']
             # make a good share of the texts valid for simple grammars
             n += 1
             pushed = [1 + r.below(4) for _ in range(r.below(3))]
